@@ -3,12 +3,16 @@ import Nervus.Driver.Agg
 import Nervus.Driver.BTree
 import Nervus.Driver.Backup
 import Nervus.Driver.Bulk
+import Nervus.Driver.Capi
 import Nervus.Driver.CapiSched
+import Nervus.Driver.Capix
 import Nervus.Driver.Codec
+import Nervus.Driver.Crash
 import Nervus.Driver.Cypher
 import Nervus.Driver.Cypher14
 import Nervus.Driver.CypherUpdate
 import Nervus.Driver.Engine
+import Nervus.Driver.ExtId
 import Nervus.Driver.Handles
 import Nervus.Driver.Hnsw
 import Nervus.Driver.Index
@@ -53,21 +57,11 @@ def streams : List (String × Stream) := ([] : List (String × Stream))
   |>.cons ("engine_abort", EngineStream.streamAbort)
   |>.cons ("bulk", BulkStream.stream)
   |>.cons ("cypher14", Cypher14.stream)
-import Nervus.Driver.ExtId
-import Nervus.Driver.Capi
-import Nervus.Driver.Capix
-import Nervus.Driver.Crash
-open Nervus.Driver
-
-/-- stream registry: one line per stream (kept one-per-line so that merges are unions) -/
-def streams : List (String × Stream) := [
-  ("okey", OKeyStream.stream),
-  ("extid", ExtIdStream.stream),
-  ("capi", CapiStream.stream),
-  ("capiryw", CapiStream.streamRyw),
-  ("capix", CapixStream.stream),
-  ("crash", CrashStream.stream)
-]
+  |>.cons ("extid", ExtIdStream.stream)
+  |>.cons ("capi", CapiStream.stream)
+  |>.cons ("capiryw", CapiStream.streamRyw)
+  |>.cons ("capix", CapixStream.stream)
+  |>.cons ("crash", CrashStream.stream)
 
 def main (args : List String) : IO UInt32 := do
   match args with
